@@ -71,12 +71,12 @@ func mMinVersion(s *specs.Spec) string {
 
 type SpecGen struct {
 	Vendor, Class string
-	Marker        string   // unique per Spec file; every edit element carries it
-	DevNames      []string // device names (default: 1..4 generated names)
-	NoSpecEdits   bool     // never generate spec-level edits
-	Plain         bool     // only env/mount/hook edits (no host lookups, no version-gated features)
-	HostNodes     []HostNode // existing host device nodes (types b/c/p) usable for nodes without explicit type
-	Version       string   // declared version ("" = random valid one)
+	Marker        string                                  // unique per Spec file; every edit element carries it
+	DevNames      []string                                // device names (default: 1..4 generated names)
+	NoSpecEdits   bool                                    // never generate spec-level edits
+	Plain         bool                                    // only env/mount/hook edits (no host lookups, no version-gated features)
+	HostNodes     []HostNode                              // existing host device nodes (types b/c/p) usable for nodes without explicit type
+	Version       string                                  // declared version ("" = random valid one)
 	Str           func(r *rand.Rand, field string) string // optional string source for free-text fields
 }
 
